@@ -509,6 +509,15 @@ def snapshot_rules(ctx, pfx, requests=REQUESTS):
                        'EpochHash returned by %s' % (short(base), ' -> '.join(short(x) for x in prog.path_to(parent, n)[-3:]), r),
                        key='RF-SNAP|%s|again|%s' % (r, base))
         snap = fetches[0][1]
+        # the epoch record is read FIRST: a value-state read placed before it can miss a version that a publish commits
+        # in between, while the (later) snapshot epoch already covers it (seeded change C03-r2-a)
+        early = [(ev, c) for cal in ('StorageManager::get_user_data', 'StorageManager::get_user_state', 'StorageManager::get_user_state_versions',
+                                     'Directory::get_lookup_info', 'Directory::build_lookup_info')
+                 for ev, c in find_events(b, cal) if not b.blk_dominates(fetches[0][0]['pos'][0], ev['pos'][0])]
+        ctx.ob(oid + '.first', 'RF-SNAP', not early, b.path, '%s:%s' % (b.file, early[0][0]['line'] if early else fetches[0][0]['line']),
+               'no value-state read precedes the epoch-record fetch' if not early else
+               'value states are read (%s) before the epoch record: a commit landing in between yields a snapshot epoch whose newest '
+               'version is missing from the states' % short(early[0][1][2] or early[0][1][1]), key='RF-SNAP|%s|first' % r)
         # proof generation receivers and node-fetch epochs derive from the snapshot
         n_recv = 0
         for nb in [b] + [prog.bodies[n] for n in sorted(seen) if n in prog.bodies and n.startswith(D) and n != b.path]:
